@@ -162,6 +162,22 @@ func runC12(r *Run) {
 			r.Probe("simultaneous_arrivals_inside_acquire")
 			r.Nontrivial = true
 		}
+		// at any moment: an element is in the backlog only while its caller is inside Acquire - a caller that has returned
+		// (granted or refused) has left it, also while the release that served it is still busy with other waiters
+		insideAcquire := 0
+		for _, cl := range sc.clients {
+			if cl.acq != nil && !cl.returned {
+				insideAcquire++
+			}
+		}
+		{
+			var q int
+			var okq bool
+			if RootCall(func() { q, okq = sc.st.QueueSize() }) && okq && q > insideAcquire {
+				s.Fail("backlog-mismatch", sc.cfg.Key()+"/after-return", "t=%s: the queue_size gauge reports %d but only %d caller(s) are inside Acquire: a caller that has returned is still counted [%s]", fmtDur(s.Now()), q, insideAcquire, sc.cfg)
+				return
+			}
+		}
 		// exactness whenever no caller is in the middle of an operation (also while goroutines the limiter may
 		// have spawned are still pending): a caller that has returned from Acquire has left the backlog
 		callerMidOp := false
@@ -240,7 +256,7 @@ func runC13(r *Run) {
 		kinds: []string{"queue", "queue", "deadline", "deadline", "blocking", "lifo-ctor", "fifo-ctor", "pool"}, strategies: []string{"simple", "precise"},
 		maxClients: 4, arrivals: []time.Duration{0, ms, 2 * ms}, holds: []time.Duration{0, ms},
 		qTimeouts: []time.Duration{1, ms, 2 * ms, time.Hour, 0, -1, -time.Second}, bTimeouts: []time.Duration{0, time.Hour},
-		deadlines: []time.Duration{0, ms, 2 * ms, 5 * time.Second, -ms, DeadlineZeroTime},
+		deadlines: []time.Duration{0, ms, 2 * ms, 5 * time.Second, -ms, DeadlineZeroTime, DeadlineFarFuture},
 		cancelPct: 50, cancelTimes: []time.Duration{0, ms, 2 * ms, 3 * ms},
 		backlogs: []int{10}, limits: []int{1, 2}, relTimes: []time.Duration{ms, 2 * ms, 3 * ms, 2*ms - 1, 2*ms + 1},
 		preHeldAll: !variantC, noReleases: !variantB,
